@@ -79,7 +79,7 @@ func execCallInputs(p *Profile, ap *apiPool, h histCall, inputs map[int][]byte) 
 		r := newScripted(in, nil)
 		switch h.API {
 		case "decode":
-			f, err := fit.Decode(r, fit.WithUnknownFields(), fit.WithUnknownMessages())
+			f, err := fit.Decode(r, sharedUF, sharedUM)
 			if f != nil {
 				files = append(files, p.projFile(f))
 			}
@@ -87,7 +87,7 @@ func execCallInputs(p *Profile, ap *apiPool, h histCall, inputs map[int][]byte) 
 				errv = 1
 			}
 		case "chained":
-			fs, err := fit.DecodeChained(r, fit.WithUnknownFields(), fit.WithUnknownMessages())
+			fs, err := fit.DecodeChained(r, sharedUF, sharedUM)
 			for _, f := range fs {
 				files = append(files, p.projFile(f))
 			}
